@@ -18,6 +18,7 @@ def parseOp (s : String) : Option Op :=
   | ["split", k] => k.toNat?.map .split | ["concat"] => some .concat
   | ["remove", i] => i.toNat?.map .remove | ["swapRemove", i] => i.toNat?.map .swapRemove
   | ["flatten2"] => some .flatten2 | ["unflatten", n] => n.toNat?.map .unflatten
+  | ["collect", n] => n.toNat?.map .collect
   | ["roundtrip"] => some .roundtrip | ["dropArr"] => some .dropArr | ["dropHeld"] => some .dropHeld
   | _ => none
 
@@ -28,6 +29,11 @@ def answer (kv : KV) : String :=
     let p := run Pool.empty ops
     let arrs := "".intercalate (p.arrays.map fun a => s!"[{showNats a}]")
     let its := "".intercalate (p.iters.map fun it => s!"[{showNats (GA.Iter.asSlice it)}]")
-    s!"next={p.next} arrays={arrs} iters={its} held=[{showNats p.held}] dropped=[{showNats (OwnE.sortNats p.dropped)}]"
+    if kv.getD "kind" "tr" = "z" then
+      let arrsz := "".intercalate (p.arrays.map fun a => s!"[{a.length}]")
+      let itsz := "".intercalate (p.iters.map fun it => s!"[{(GA.Iter.asSlice it).length}]")
+      s!"next={p.next} arrays={arrsz} iters={itsz} held={p.held.length} dropped={p.dropped.length}"
+    else
+      s!"next={p.next} arrays={arrs} iters={its} held=[{showNats p.held}] dropped=[{showNats (OwnE.sortNats p.dropped)}]"
 
 end GA.Drv.HistE
